@@ -579,7 +579,8 @@ def _inputs(chk):
     chk.check("_allow_compute[" in t and " if " in t, "LAZY.input.filter", dc, None, construct="DataContainer.compute filters on _allow_compute",
               why="DataContainer.compute no longer skips entries stored with allow_compute=False")
     bc = pm.own_method("xeofs.base_model.BaseModel", "compute")
-    t = norm(bc.node)
+    from .common import class_closure as _clo
+    t = " ".join(norm(g.node) for g in _clo(pm, bc.cls, bc))  # the predicate may be a private helper
     chk.check("allow_compute" in t and "data_is_dask" in t, "LAZY.input.filter", bc, None, construct="BaseModel.compute filters on allow_compute",
               why="BaseModel.compute no longer skips nodes flagged allow_compute=False")
     pc = [c for c in calls_in(bc) if is_self_attr(c.func, "_post_compute")]
